@@ -187,7 +187,9 @@ namespace _fmt_basics {
 
 		for(int i = k - 1; i >= 0; i--) {
 			sink.append(buffer[i]);
-			emit_grouping();
+			// No separator follows the last digit (and there is no group before the first one).
+			if(i)
+				emit_grouping();
 		}
 
 		if(left_justify && final_width < width)
